@@ -193,6 +193,8 @@ MALFORMED = ['cov_asym_tiny', 'cov_asym_9th_digit', 'cov_grad_neg', 'cov_grad_in
              'multi_ens_prefix', 'multi_ens_prefix_rev', 'multi_ens_word', 'multi_ens_nosuffix', 'multi_ens_dot', 'multi_ens_bare_first', 'merge_multi_ens', 'ok_control_rep10']
 # indefinite covariances are indefinite at every overall scale (no absolute tolerance may enter the test)
 MALFORMED += ['%s@%d' % (k, e) for k in ('cov_neg', 'cov_indef', 'cov_listneg', 'cov_grad_neg') for e in (-12, -7, -3, 9)] + ['ok_cov@-12', 'ok_cov@9']
+# ... and a negative eigenvalue that is tiny RELATIVE to the largest one (exactly symmetric input) is still a negative eigenvalue
+MALFORMED += ['%s@%d' % (k, e) for k in ('cov_relneg', 'cov_listrelneg') for e in (-20, 0, 15)]
 
 
 def check_malformed(ctx, case):
@@ -262,6 +264,8 @@ def check_malformed(ctx, case):
                'cov_indef': lambda: pe.cov_Obs([1.0, 2.0], [[8.0 * sc, 4.0 * sc], [4.0 * sc, -2.0 * sc]], 'cv'),
                'cov_listneg': lambda: pe.cov_Obs([1.0, 2.0], [4.0 * sc, -1.0 * sc], 'cv'),
                'cov_grad_neg': lambda: pe.cov_Obs(1.0, -0.25 * sc, 'cv', grad=[1.0]),
+               'cov_relneg': lambda: pe.cov_Obs([1.0, 2.0], [[sc, (1 + 2.0 ** -37) * sc], [(1 + 2.0 ** -37) * sc, sc]], 'cv'),
+               'cov_listrelneg': lambda: pe.cov_Obs([1.0, 2.0], [sc, -2.0 ** -37 * sc], 'cv'),
                'ok_cov': lambda: pe.cov_Obs([1.0, 2.0], [[2.0 * sc, 0.5 * sc], [0.5 * sc, 1.0 * sc]], 'cv')}[kk]
     try:
         with warnings.catch_warnings():
